@@ -86,12 +86,17 @@ SkipZeroWithdrawal ==
   /\ blk' = [blk EXCEPT !.wd = Tail(@)]
   /\ UNCHANGED <<fork, bal, balu, burned, minted, mintedu, total0, tx, frames, float, escrow, sd, created>>
 
+(* a consensus reward listed for this block is paid (in any order) *)
+RewardListed(a, units) == \E i \in 1..Len(blk.rw) : blk.rw[i] = [a |-> a, units |-> units]
+RemoveFirst(s, x) == LET i == CHOOSE j \in 1..Len(s) : s[j] = x /\ \A k \in 1..(j - 1) : s[k] # x
+                     IN  SubSeq(s, 1, i - 1) \o SubSeq(s, i + 1, Len(s))
+
 Reward(a, units) ==
   /\ InBlk /\ ~InTx /\ Len(frames) = 0 /\ Known(a) /\ units > 0
-  /\ Len(blk.rw) > 0 /\ blk.rw[1] = [a |-> a, units |-> units]
+  /\ RewardListed(a, units)
   /\ balu' = SetBal(balu, a, BalUOf(a) + units) /\ bal' = Ext(bal, a)
   /\ mintedu' = mintedu + units
-  /\ blk' = [blk EXCEPT !.rw = Tail(@)]
+  /\ blk' = [blk EXCEPT !.rw = RemoveFirst(@, [a |-> a, units |-> units])]
   /\ UNCHANGED <<fork, burned, minted, total0, tx, frames, float, escrow, sd, created>>
 
 EndBlock ==
